@@ -12,7 +12,7 @@ CHECKS = {
  "C02": ("small-scope program enumeration (E1): every aggregating rule of pool A alone and in pairs x every p/q EDB in scope, compared with a per-rule group-and-fold reference",
          "bounded-exhaustive: every rule/pair/EDB in scope is evaluated by the real engine and the head predicates' extensions compared exactly with the union of the per-rule reductions of the reference",
          "reference evaluator verifmc/oracle; collected lists compared as multisets; wildcards in aggregated bodies outside the alphabet", "4 C02"),
- "C03": ("exhaustive enumeration of labelled dependency graphs (E1): all 5^9 (thorough 6^9) graphs over 3 IDB predicates and 3^16/4^16 over 4, real analysis.Stratify checked against Floyd-Warshall reachability",
+ "C03": ("exhaustive enumeration of labelled dependency graphs (E1): all 5^9 (thorough 6^9) graphs over 3 IDB predicates and 3^16/4^16 over 4, real analysis.Stratify checked against Floyd-Warshall reachability; plus environment-deviation exploration (E3) of the map iteration order inside Stratify (vmap build, worker processes): all labelled 3-predicate graphs under 4 global orders and every single deviation",
          "bounded-exhaustive: for every dependency graph in scope the returned layers (or the failure) are validated against the definition: partition, map agreement, order of every edge, strictness of negative/aggregating edges, SCCs unsplit, failure iff a negative cycle",
          "graphs are built directly as analysis.Program (and a slice through parse+Analyze); map-iteration order inside Stratify is whatever the Go runtime picks on that run", "4 C03"),
  "C04": ("small-scope clause enumeration (E1): every ordered body of <=3 literals (thorough 4) over a 28-literal alphabet x 5 heads x 4 transform tails, through parse+Analyze; accepted clauses evaluated on 3 EDBs against the reference meaning of the clause as written",
@@ -39,13 +39,13 @@ CHECKS = {
  "C19": ("exhaustive write/read cycles over enumerated stores (E1): one- and two-fact stores for every constant of the printable universe, every ordered predicate layout with 0-2 facts, formats plain/gzip/zstd x deterministic on/off, read back eagerly and lazily with every pattern query; byte equality of deterministic writes over every insertion order",
          "bounded-exhaustive: every store of the enumerated families is written by SimpleColumn.WriteTo and read back by ReadInto (3 store kinds) and SimpleColumnStore (full scan, counts, Contains, every pattern over the columns' constants) and compared as sets with the original",
          "printable constants only (C09 alphabet); hash-keyed target/source stores are used only for fact sets without Atom.Hash() collisions (their conflation is C06's known finding)", "4 C19"),
- "C16": ("operation-history search (E2, differential): every define/load/pop history up to depth d over a 15-command alphabet on a fresh real interpreter; after every command, outcome and all query answers are compared with a fresh interpreter that loads only the live fragments",
+ "C16": ("operation-history search (E2, differential): every define/load/pop history up to depth d over a 22-command alphabet on a fresh real interpreter; after every command, outcome and all query answers are compared with a fresh interpreter that loads only the live fragments, and the facts of fact-only predicates with the union of the facts written in the live fragments",
          "bounded-exhaustive: every command history up to the depth bound is executed on the real interpreter; the reference is the same implementation started fresh on the live fragments implied by the documented stack discipline, so no expected values are hand-written",
          "definitions are issued as Loop issues them through a 6-line method added to package interpreter by go build -overlay (mc/seam/interp_hook.go); the stack discipline (load pops interactive definitions first) is taken from the documentation", "4 C16"),
  "C17": ("small-scope enumeration in killable workers (E1): 21 diverging/converging program shapes and their pairs x seeds x every limit in {1..12,16,32,100} x store kinds, real engine with WithCreatedFactLimit compared with a capped reference evaluation",
          "bounded-exhaustive: every (program, seed, limit, store) in scope is run in a worker process (ulimit -v, 60 s deadline, re-run twice before 'did not return' is believed): returns; growth bounded; nil error => complete model; infinite model => error",
          "convergence decided by the reference evaluator with caps; growth bound instantiated as 4*(L+1)*(rules+1)+8; errors on converging programs (limit or join width exceeded) are correct behaviour", "4 C17"),
- "C10": ("exhaustive enumeration of short token strings and of all single-edit neighbours of a corpus, in killable workers (E1): every input is offered to the parser entry points / escape decoder / fact-file readers; units that parse go through AnalyzeAndCheckBounds and EvalProgram under a fact limit",
+ "C10": ("exhaustive enumeration of short token strings and of all single-edit neighbours of a corpus, in killable workers (E1): every input is offered to the parser entry points / escape decoder / fact-file readers; units that parse go through AnalyzeAndCheckBounds and EvalProgram under a fact limit; plus full grids over declarations, built-in functions/predicates with every short argument list, type constructors, extreme literals and merge descriptors",
          "bounded-exhaustive within token-string length k and edit distance 1 of 19 sources and 6 fact files: each step must return a value or an error; panics are caught per input, hangs by a per-input watchdog in a worker process",
          "not coverage-guided fuzzing: long adversarial inputs are outside the bound; header counts near 2^32 (huge allocation) are noted, not executed", "4 C10"),
  "C14": ("small-scope enumeration (E1): every set of <=2 intervals on a 7-point timeline x the four operators x all bound pairs x every evaluation time; variable and head annotations, chains; every ordered interval pair x 9 relations; real engine compared with own interval arithmetic",
@@ -60,8 +60,8 @@ CHECKS = {
  "C05": ("exhaustive enumeration of presentations (E1) of each base program: clause orders, fact orders, variable and predicate renamings, package wrapping, store kinds, deterministic-order option; differential comparison of canonical results; plus environment-deviation exploration (E3) of hash-map iteration order: every range-over-map of the repository is rewritten at build time (overlay generated from the working tree) to iterate in an order the explorer chooses - 4 global modes and every single-point deviation are executed",
          "bounded-exhaustive over the presentation dimensions for ~1400 (quick) base programs from pools G, N, A and temporal chains: every variant is evaluated by the real pipeline and must give the reference variant's canonical fact set (temporal facts with intervals)",
          "map iteration order is explorer-owned in the vmap build (bin/mcv): default answer = keys sorted by printed form, deviations = reversed / rotated orders globally and at each single dynamic range execution; two simultaneous deviations are not explored; order-sensitive reducers are excluded; collected lists compared as multisets", "4 C05"),
- "C18": ("controlled-scheduler interleaving search (E4): the real ConcurrentFactStore over a stepped base under a cooperative scheduler injected by rewriting package sync at build time; every schedule up to a preemption bound, each history checked for linearizability by brute force; sync.Pool answers and parallel pipelines explored the same way; plus an auxiliary free-running -race pass",
-         "bounded-exhaustive over schedules: 2 threads x 1-2 operations (3 threads x 1 in thorough) x initial states, all interleavings of lock operations and base-store steps with <= 2 preemptions (unbounded for 2 threads in thorough); deadlock = no enabled thread; every recorded history must have a linearization against a set model",
+ "C18": ("controlled-scheduler interleaving search (E4): the real ConcurrentFactStore over a stepped base under a cooperative scheduler injected by rewriting package sync at build time; every schedule up to a preemption bound, each history checked for linearizability by brute force and each execution for mutual exclusion inside the wrapped (not thread-safe) store by an oracle in the stepped base; sync.Pool answers and parallel pipelines explored the same way; plus an auxiliary free-running -race pass",
+         "bounded-exhaustive over schedules: 2 threads x 1-2 operations and 3 threads x 1 operation (10 operations incl. ListPredicates and a merge out of the store) x initial states, all interleavings of lock operations and base-store steps with <= 2 preemptions (unbounded for 2 threads in thorough); deadlock = no enabled thread; every recorded history must have a linearization against a set model",
          "scheduling points are the sync shim's operations plus explicit steps of the harness's base store; data races are outside what a cooperative scheduler can see and are covered by a separate sampled `go test -race` pass (listed separately in the evidence)", "4 C18"),
 }
 NOT_APPLICABLE = {
